@@ -1,6 +1,172 @@
 /-
-  C10 — property theorems (placeholder: no theorem yet, the property is not claimed).
+  C10 — Framebuffer reads back what was written, in the layout of ImageRaw.
+
+  Property theorems only (helper lemmas: EG/Lemmas/Framebuffer.lean, FramebufferHist.lean, on top of
+  the C11 lemmas EG/Lemmas/Raw*.lean). All statements are about the model `EG.Model.Framebuffer`
+  (a literal transcription of src/framebuffer.rs and of `ImageRaw::{new, data_width, pixel}`, tied
+  to the code by the `fb.hist` correspondence stream over 7 depths x 2 orders x 5 sizes x 2 buffer
+  lengths of the real, macro-instantiated `Framebuffer`).
+
+  Quantifiers: `fb` ranges over ALL well-formed framebuffers (`Fb.Wf`: one of the seven raw types,
+  either data order, ANY width and height, ANY `N >= BUFFER_SIZE` below 2^61 bytes, any byte
+  content); points over all of `Int x Int`; colours over all raw values of the depth (`c < 2^bits`,
+  what `C::into()` yields); histories over ALL lists of writes / `DrawTarget` calls.
+  Everything is proved for all inputs; the only kernel-evaluated ingredient is C11's byte-level
+  table for the sub-byte depths.
+
+  Not modelled: `ImageRaw::pixel` compares `p.x >= self.size.width as i32`; the `as i32` cast wraps
+  for WIDTH/HEIGHT above `i32::MAX` (no such framebuffer fits in memory at >= 1 bit per pixel times
+  2^31 columns only if HEIGHT is tiny — outside every display scale); the model compares in `Int`.
+
+  -- [V] drawing `as_image()` reproduces the framebuffer's content: the image is proved to be the ImageRaw over the same bytes (`as_image_spec`) and `pixel` IS the image's `pixel`; the draw path of ImageRaw (`ContiguousPixels`, `fill_contiguous`) is C09's model — here carried by correspondence (`img=` field of fb.hist) + oracle only
+  -- [V] the colour <-> raw conversions `C::into()` / `C::from(raw)` are the identity on raw values (C12's topic): carried by correspondence + oracle only
 -/
-import EG.Basic.Core
+import EG.Lemmas.FramebufferHist
 namespace EG.C10
+open EG EG.Raw EG.Fb
+
+/-! ### Buffer size and row padding -/
+
+/-- `buffer_size`: rows are padded to whole bytes. -/
+theorem buffer_size_spec (w h bits : Nat) :
+    bufferSize w h bits = (w * bits + 7) / 8 * h ∧ bufferSize w h bits = bytesPerRow w bits * h :=
+  ⟨rfl, rfl⟩
+
+/-- The used prefix holds exactly `height` rows of `rowPixels >= width` pixels (the padding
+pixels of a row are never addressed), and every pixel of the area has its index — hence all of
+its bytes — inside that prefix: no slice access of `set_pixel` can be out of bounds. -/
+theorem rows_padded (fb : Fb) (hw : fb.Wf) :
+    pixelCount fb.bits fb.bufSize = fb.height * fb.rowPixels ∧ fb.width ≤ fb.rowPixels ∧
+    ∀ p, fb.inside p → fb.index p < pixelCount fb.bits fb.bufSize :=
+  ⟨pixelCount_bufSize fb hw.bits, width_le_rowPixels fb hw.bits,
+    fun _ hp => index_lt_prefix fb hw.bits hp⟩
+
+/-- Distinct pixels of the area occupy distinct raw indices (hence, by C11, disjoint bits). -/
+theorem index_injective (fb : Fb) (hw : fb.Wf) {p q : Pt} (hp : fb.inside p) (hq : fb.inside q)
+    (h : fb.index p = fb.index q) : p = q :=
+  index_inj fb hw.bits hp hq h
+
+/-! ### Reader and writer agree -/
+
+/-- `pixel(p)` is `load` at index `x + y * data_width` of the data, `None` outside WIDTH x HEIGHT;
+`set_pixel` inside is `store` at the same index (all three macro families). -/
+theorem pixel_is_load_set_pixel_is_store (fb : Fb) (hw : fb.Wf) (p : Pt) (c : Nat) :
+    (fb.pixel p = if fb.inside p then load fb.bits fb.order fb.data (fb.index p) else none) ∧
+    (fb.inside p →
+      fb.setPixel p c = { fb with data := (store fb.bits fb.order c fb.data (fb.index p)).2 }) :=
+  ⟨pixel_eq_load fb hw p, fun hp => setPixel_inside fb hw c hp⟩
+
+/-- get/set: after `set_pixel(p, c)`, `pixel(q)` is `c` at `q = p` (if `p` is inside) and what it
+was everywhere else — for every depth, both orders, every size and every `N`. -/
+theorem get_set (fb : Fb) (hw : fb.Wf) (p : Pt) {c : Nat} (hc : c < 2 ^ fb.bits) (q : Pt) :
+    (fb.setPixel p c).pixel q = if q = p ∧ fb.inside p then some c else fb.pixel q :=
+  pixel_setPixel fb hw p hc q
+
+/-- `pixel` is `None` exactly outside WIDTH x HEIGHT. -/
+theorem pixel_none_iff_outside (fb : Fb) (hw : fb.Wf) (q : Pt) :
+    fb.pixel q = none ↔ ¬ fb.inside q := by
+  rw [pixel_eq_load fb hw]
+  by_cases hq : fb.inside q
+  · simp only [hq, ↓reduceIte, not_true_eq_false, iff_false]
+    obtain ⟨v, hv⟩ := load_inside hw.bits fb.order fb.data _ (index_lt fb hw hq)
+    rw [hv]; simp
+  · simp only [hq, ↓reduceIte, not_false_eq_true]
+
+/-- `set_pixel` keeps the framebuffer well formed (so every statement here applies again). -/
+theorem set_pixel_wf (fb : Fb) (hw : fb.Wf) (p : Pt) {c : Nat} (hc : c < 2 ^ fb.bits) :
+    (fb.setPixel p c).Wf := setPixel_wf fb hw p hc
+
+/-! ### Histories -/
+
+/-- After ANY sequence of pixel writes on a fresh framebuffer, `pixel(q)` is the colour most
+recently written to `q` (`PMap.apply`: last write wins), the all-zero colour if `q` was never
+written, and `None` outside WIDTH x HEIGHT. -/
+theorem history_refines_map {bits : Nat} (hb : validBits bits = true) (o : Order) (w h n : Nat)
+    (hn : bufferSize w h bits ≤ n) (hf : n * 8 ≤ usizeMax) (ws : Writes) (hc : ColorsOk bits ws)
+    (q : Pt) :
+    ((Fb.new bits o w h n).drawIter ws).pixel q =
+      if (Fb.new bits o w h n).inside q then some (((PMap.empty.apply ws) q).getD 0) else none := by
+  have := (refines_drawIter _ (new_wf hb o w h n hn hf) _ (new_refines hb o w h n hn hf) ws hc).2 q
+  rw [this]
+  by_cases hq : (Fb.new bits o w h n).inside q
+  · have hq' := (drawIter_inside_iff (Fb.new bits o w h n) ws q).mpr hq
+    simp only [hq, hq', ↓reduceIte]
+  · have hq' : ¬ ((Fb.new bits o w h n).drawIter ws).inside q :=
+      fun h => hq ((drawIter_inside_iff _ ws q).mp h)
+    simp only [hq, hq', ↓reduceIte]
+
+/-- The same from any well-formed state that agrees with an abstract map (e.g. after `data_mut`). -/
+theorem history_refines_map_from (fb : Fb) (hw : fb.Wf) (m : PMap) (hr : Refines fb m)
+    (ws : Writes) (hc : ColorsOk fb.bits ws) :
+    (fb.drawIter ws).Wf ∧ Refines (fb.drawIter ws) (m.apply ws) :=
+  refines_drawIter fb hw m hr ws hc
+
+/-- Drawing operations other than `set_pixel`: `Framebuffer` implements only `draw_iter`
+(= `set_pixel` per pixel); `fill_contiguous`, `fill_solid`, `clear` are the trait defaults. Hence
+any sequence of `DrawTarget` calls IS one history of `set_pixel`s ... -/
+theorem drawing_ops_are_set_pixel_histories (fb : Fb) (calls : List Call) :
+    fb.run calls = fb.drawIter (calls.flatMap (Call.lowerDefault fb.bbox)) :=
+  run_eq_drawIter fb calls
+
+/-- ... and reads back as the last-write map of the pixels those calls address. -/
+theorem drawing_history_refines_map {bits : Nat} (hb : validBits bits = true) (o : Order)
+    (w h n : Nat) (hn : bufferSize w h bits ≤ n) (hf : n * 8 ≤ usizeMax) (calls : List Call)
+    (hc : ColorsOk bits (calls.flatMap (Call.lowerDefault (Fb.new bits o w h n).bbox))) (q : Pt) :
+    ((Fb.new bits o w h n).run calls).pixel q =
+      if (Fb.new bits o w h n).inside q then
+        some (((PMap.empty.apply
+          (calls.flatMap (Call.lowerDefault (Fb.new bits o w h n).bbox))) q).getD 0)
+      else none := by
+  rw [run_eq_drawIter]
+  exact history_refines_map hb o w h n hn hf _ hc q
+
+/-! ### Writes outside; bytes beyond the used prefix -/
+
+/-- A write outside WIDTH x HEIGHT changes no byte (nothing at all). -/
+theorem outside_noop (fb : Fb) {p : Pt} (c : Nat) (hp : ¬ fb.inside p) : fb.setPixel p c = fb :=
+  setPixel_outside fb c hp
+
+theorem outside_noop_history (fb : Fb) (ws : Writes) (ho : ∀ w ∈ ws, ¬ fb.inside w.1) :
+    fb.drawIter ws = fb := drawIter_outside fb ws ho
+
+/-- Bytes at positions `>= BUFFER_SIZE` of an oversized buffer are never modified, and the
+buffer keeps its length `N` — for one write ... -/
+theorem tail_untouched (fb : Fb) (hw : fb.Wf) (p : Pt) (c : Nat) :
+    (fb.setPixel p c).data.length = fb.data.length ∧
+    ∀ k, fb.bufSize ≤ k → (fb.setPixel p c).data[k]? = fb.data[k]? :=
+  ⟨setPixel_length fb hw p c, fun _ hk => setPixel_tail fb hw p c hk⟩
+
+/-- ... and for any history. -/
+theorem tail_untouched_history (fb : Fb) (hw : fb.Wf) (ws : Writes) (hc : ColorsOk fb.bits ws) :
+    (fb.drawIter ws).data.length = fb.data.length ∧
+    ∀ k, fb.bufSize ≤ k → (fb.drawIter ws).data[k]? = fb.data[k]? :=
+  ⟨drawIter_length fb hw ws hc, fun _ hk => drawIter_tail fb hw ws hc hk⟩
+
+/-! ### `as_image` -/
+
+/-- `as_image()` succeeds and is the `ImageRaw` of the same depth and data order, of size
+WIDTH x HEIGHT, over exactly the first `BUFFER_SIZE` bytes; `pixel` is that image's `pixel`. -/
+theorem as_image_spec (fb : Fb) (hw : fb.Wf) :
+    fb.asImage = some ⟨fb.bits, fb.order, fb.data.take fb.bufSize, fb.width, fb.height⟩ ∧
+    ∀ p, fb.pixel p
+      = Img.pixel ⟨fb.bits, fb.order, fb.data.take fb.bufSize, fb.width, fb.height⟩ p := by
+  refine ⟨asImage_eq fb hw, fun p => ?_⟩
+  unfold Fb.pixel
+  rw [asImage_eq fb hw]
+
+/-! ### Non-vacuity: concrete instances of the hypotheses used above -/
+
+example : bufferSize 9 2 1 = 4 ∧ bufferSize 5 3 2 = 6 ∧ bufferSize 13 3 24 = 117 := by decide
+example : (Fb.new 2 .be 5 3 9).Wf :=
+  new_wf (bits := 2) (by decide) .be 5 3 9 (by decide) (by unfold usizeMax; omega)
+example : (Fb.new 2 .be 5 3 9).inside ⟨4, 2⟩ ∧ ¬ (Fb.new 2 .be 5 3 9).inside ⟨5, 0⟩ ∧
+    ¬ (Fb.new 2 .be 5 3 9).inside ⟨-1, 1⟩ := by decide
+example : ((Fb.new 2 .be 5 3 9).setPixel ⟨4, 1⟩ 3).data = [0, 0, 0, 3, 0, 0, 0, 0, 0] := by decide
+example : ((Fb.new 2 .le 5 3 9).setPixel ⟨4, 1⟩ 3).data = [0, 0, 0, 192, 0, 0, 0, 0, 0] := by decide
+example : ((Fb.new 2 .le 5 3 9).setPixel ⟨4, 1⟩ 3).pixel ⟨4, 1⟩ = some 3 := by decide
+example : ColorsOk 2 [(⟨4, 1⟩, 3), (⟨7, 7⟩, 1), (⟨4, 1⟩, 2)] := by
+  intro w hw; simp at hw; rcases hw with rfl | rfl | rfl <;> decide
+example : ((Fb.new 16 .be 5 3 33).run [.clear 0x1234, .fillSolid ⟨⟨3, 1⟩, ⟨4, 4⟩⟩ 7]).pixel ⟨4, 2⟩
+    = some 7 := by decide +kernel
+
 end EG.C10
